@@ -9,6 +9,7 @@ Sh(tn)       == [k |-> "shearing", tn |-> tn]
 Ro(o, cs)    == [k |-> "rotation", order |-> o, cs |-> cs]
 Qu(q)        == [k |-> "quaternion", q |-> q]
 Ho(A, t)     == [k |-> "homogeneous", A |-> A, t |-> t]
+Dd(A, t)     == [k |-> "ddf", A |-> A, t |-> t]
 Mo(n, parts) == [name |-> n, parts |-> parts]
 ZXZ == <<"Z", "X", "Z">>
 Z2  == <<"Z">>
@@ -23,6 +24,9 @@ K2 == {<<R(1,2)>>, <<R(-3,4)>>}
 K3 == {<<R(1,2), R(-3,4), R(1,4)>>}
 Q3 == {<<R(1,5), R(2,5), R(2,5), R(4,5)>>, <<R(1,2), R(1,2), R(1,2), R(-1,2)>>}
 H2 == {<< << <<R(3,2), R(-1,2)>>, <<R(1,4), RI(1)>> >>, <<R(1,5), R(-1,10)>> >>}
+DD2 == {<< << <<R(9,8), R(1,8)>>, <<R(-1,4), R(7,8)>> >>, <<R(1,8), R(-1,16)>> >>,
+        << << <<R(7,8), Zero>>, <<R(1,8), R(17,16)>> >>, <<R(-1,16), R(1,8)>> >>}
+DD3 == {<< << <<R(9,8), R(1,8), Zero>>, <<R(-1,4), R(7,8), R(1,8)>>, <<Zero, R(-1,8), One>> >>, <<R(1,8), R(-1,16), R(1,16)>> >>}
 H3 == {<< << <<One, R(-1,2), Zero>>, <<R(1,4), R(3,2), R(1,5)>>, <<Zero, R(-1,5), R(4,5)>> >>, <<R(1,5), R(-1,10), R(1,4)>> >>}
 
 QModels(D) ==
@@ -38,6 +42,11 @@ QModels(D) ==
         \cup {Mo("Generic:TRS", <<Sc(s), Ro(Z2, a), Tr(t)>>) : s \in {<<R(4,5), R(5,4)>>}, a \in {<<CS_3_5>>}, t \in {<<R(1,4), R(-1,2)>>}}
         \cup {Mo("Generic:KSR", <<Ro(Z2, <<CS_3_5>>), Sc(<<R(3,2), R(1,2)>>), Sh(<<R(1,2)>>)>>)}
         \cup {Mo("Sequential:T,R,T", <<Tr(<<R(1,4), R(-1,2)>>), Ro(Z2, <<CS_3_5>>), Tr(<<R(-3,10), R(1,5)>>)>>)}
+        \* non-rigid members (affine displacement fields) before and after linear ones
+        \cup {Mo("DisplacementFieldTransform", <<Dd(dd[1], dd[2])>>) : dd \in DD2}
+        \cup {Mo("Sequential:T,DDF", <<Tr(<<R(1,8), R(-1,4)>>), Dd(dd[1], dd[2])>>) : dd \in DD2}
+        \cup {Mo("Sequential:DDF,R", <<Dd(dd[1], dd[2]), Ro(Z2, <<CS_12_13n>>)>>) : dd \in DD2}
+        \cup {Mo("Sequential:S,DDF,T", <<Sc(<<R(3,4), R(7,8)>>), Dd(dd[1], dd[2]), Tr(<<R(1,8), R(1,8)>>)>>) : dd \in DD2}
     ELSE
         {Mo("Translation", <<Tr(t)>>) : t \in T3} \cup {Mo("EulerRotation", <<Ro(ZXZ, a)>>) : a \in A3}
         \cup {Mo("EulerRotation:XYZ", <<Ro(<<"X", "Y", "Z">>, a)>>) : a \in A3}
@@ -52,6 +61,8 @@ QModels(D) ==
         \cup {Mo("FullAffineTransform", <<Sc(s), Sh(k), Ro(ZXZ, a), Tr(t)>>) : s \in S3, k \in K3, a \in A3, t \in T3}
         \cup {Mo("Generic:TQS", <<Sc(s), Qu(q), Tr(t)>>) : s \in S3, q \in Q3, t \in T3}
         \cup {Mo("Generic:A", <<Ho(h[1], h[2])>>) : h \in H3}
+        \cup {Mo("DisplacementFieldTransform", <<Dd(dd[1], dd[2])>>) : dd \in DD3}
+        \cup {Mo("Sequential:T,DDF", <<Tr(<<R(1,8), R(-1,4), R(1,16)>>), Dd(dd[1], dd[2])>>) : dd \in DD3}
 
 GG(n, h, c, RR, ac) == [n |-> n, h |-> h, c |-> c, R |-> RR, ac |-> ac]
 QGridsOf(D) ==
